@@ -2,7 +2,7 @@
   Props.C14 — constraints mean what set theory says and cannot be bypassed.
   Property theorems only; lemmas live in Proofs/Constraint*.lean; the model is Asn1/Constraint.lean
   (pyasn1/type/constraint.py and the constraint-related parts of base.py / univ.py / ber/encoder.py
-  as they are after the /repo fixes 9506346, 44f81e4, 18cf487).
+  as they are after the /repo fixes e45f9fd, 317983f, 8df4c27).
 -/
 import Proofs.Constraint
 import Proofs.ConstraintTyped
@@ -184,7 +184,7 @@ theorem constructed_refused_iff (spec : Constr) (mapping : CVal) (hw : spec.wf =
         exact absurd hg hl
       · simp [htr] at hg
 
-/-- a legacy `sizeSpec` never displaces the subtypeSpec (fixes 9bc6b88, aaa101a, 4027db3): whatever the moved
+/-- a legacy `sizeSpec` never displaces the subtypeSpec (fixes b99ccc0, 6dc686b, 63bd1d5): whatever the moved
     constraint set admits, the declared subtypeSpec admits -/
 theorem sizeSpec_keeps_subtypeSpec (subtypeSpec sizeSpec : Constr) (i : Option Nat) (v : CVal)
     (h : den (moveSizeSpec subtypeSpec sizeSpec) i v) : den subtypeSpec i v := by
@@ -217,12 +217,12 @@ example : ¬ den tJ none (.atom (.int 20)) := fun h => by
 /-- T6: the parent recognises the flattened derived set -/
 example : isSuperTypeOf tI tJ = true := subtype_recognised tI _ (by decide)
 example : isSuperTypeOf tJ tI = false := by decide
-/-- a union imposes none of its operands (fix 8bf629a): INTEGER (0..10) is not a supertype of
+/-- a union imposes none of its operands (fix f8fea03): INTEGER (0..10) is not a supertype of
     INTEGER (0..10 | 20..30) -/
 example : isSuperTypeOf tI (intersection [union [valueRange 0 10, valueRange 20 30]]) = false := by decide
 example : isSuperTypeOf tI (deriveChain tI [valueRange 1 9, singleValue [.int 3], valueRange 3 3]) = true :=
   chain_recognised tI (by decide) _
-/-- a parent declared with a bare (non-intersection) subtypeSpec: `subtype()` narrows (fix 18cf487) -/
+/-- a parent declared with a bare (non-intersection) subtypeSpec: `subtype()` narrows (fix 8df4c27) -/
 example : eval (derive (singleValue [.int 1, .int 2, .int 3, .int 6]) (singleValue [.int 7])) none (.atom (.int 7)) = false := by
   decide
 /-- T9: ContainedSubtypeConstraint with plain operands -/
@@ -239,7 +239,7 @@ example : encodeGate tItem (.record [("id", .int 1)]) = .accept := by decide
 example : encodeGate tItem (.record [("id", .int 1), ("name", .bytes [120])]) = .reject := by decide
 example : encodeGate (intersection [valueSize 1 2]) (.coll [.int 0, .int 1, .int 2]) = .reject := by decide
 example : typed tItem (.record [("id", .int 1)]) = true ∧ tItem.wf = true := by decide
-/-- `==` ignores the class, the imposed-by test does not (fix 0512f2c) -/
+/-- `==` ignores the class, the imposed-by test does not (fix a3e4c68) -/
 example : isSuperTypeOf (intersection [singleValue [.int 1, .int 5]]) (intersection [valueRange 1 5]) = true := by decide
 example : imposedBy (singleValue [.int 1, .int 5]) (intersection [valueRange 1 5]) = false := by decide
 example : moveSizeSpec (exclusion [valueSize 3 4]) (intersection [valueSize 3 4])
